@@ -37,7 +37,8 @@ FORMS1 = ["not $a", "-$a", "$a is empty", "$a is not empty", "$a is zero", "$a i
           "for x in keys $a do x end", "for x in entries $a do x end", "[x for x in $a]", "<<x for x in $a>>", "<<<x => x for x in $a>>>",
           "[x for x in keys $a]", "[x for x in entries $a]", "def c = $a; [...c]", "def c = $a; def f(p...) p...; f(...c)", "def [p, q] = $a; [p, q]",
           "def p = 0; def q = 0; [p, q] = $a; [p, q]", "$a->x", "$a->m()", "$a !> string()", "if $a then 1", "def n = 0; while $a do n += 1; if n > 2 then break end",
-          "error $a", "do error $a catch $a 1 end", "$a()", "$a(1)", "def c = $a; c[0]", "def c = $a; c[-1]", "string($a) + $a", "require $a",
+          "error $a", "do error $a catch $a 1 end", "for [x, x] in [$a] do x end", "def [p, p] = $a; p", "$a in [$a]", "[stdout, $a] == [stdout, $a]",
+          "stdout in [$a, stdout]", "<<<stdout => $a>>>[stdout]", "<<stdin, $a>>", "$a()", "$a(1)", "def c = $a; c[0]", "def c = $a; c[-1]", "string($a) + $a", "require $a",
           "def o = <*_proto_ = $a*>; o->x", "def o = <*_proto_ = $a*>; o->m()", "return $a", "[$a]", "eval(string($a))"]
 FORMS3 = ["$a[$b to $c]", "def c = $a; c[$b] = $c; c", "$a[$b, $c]", "if $a then $b else $c", "def c = $a; c[$b] += $c; c", "$a < $b <= $c"]
 
